@@ -432,9 +432,18 @@ func runC16(e *env) {
 			c16Map(e, z, n)
 		}
 	}
+	// The property quantifies over ids 0..2000 and every prefix: also the quick tier builds (and the
+	// judge scans every prefix of) the whole map for n = 2000 in one zone, chosen by the seed; the
+	// other zones stay at 400. (The `ignoredInstances` path of the generator is first taken beyond
+	// id 1000, so a 400-instance map never exercises it.) Thorough: all zones at 2000.
+	fullZone := int(e.seed % 8)
 	maps := make([]map[int]ring.Tokens, 8)
 	for z := 0; z < 8; z++ {
-		maps[z] = c16Map(e, z, big)
+		n := big
+		if z == fullZone {
+			n = 2000
+		}
+		maps[z] = c16Map(e, z, n)
 	}
 
 	lap("maps")
@@ -457,7 +466,7 @@ func runC16(e *env) {
 		if top > 1000 && z != 0 && z != 7 {
 			top = 1000
 		}
-		for n := dense + 1 + r4.intn(4); n < top; n += 1 + r4.intn(7)*e.scale/4 + r4.intn(2) {
+		for n := dense + 1 + r4.intn(4); n < top; n += 2 + r4.intn(5) + r4.intn(7)*(e.scale/4) {
 			jobs = append(jobs, zn{z, n})
 		}
 		jobs = append(jobs, zn{z, top})
@@ -477,7 +486,7 @@ func runC16(e *env) {
 		sub       *rng
 	}
 	var gj []genJob
-	for i := 0; i < 1800*genScale; i++ {
+	for i := 0; i < 1500*genScale; i++ {
 		z := r5.intn(8)
 		var n int
 		switch x := r5.intn(10); {
